@@ -541,8 +541,11 @@ func c14Build(c *c14Case) (*c14Env, error) {
 			}
 		}
 		used = append(used, span{pos, end})
-		if !it.Valid && (it.Bad20 == 0 || (it.Rev != 0 && it.Bad36 == 0)) {
-			return nil, fmt.Errorf("item %d: a decoy needs every checksum broken", i)
+		// a decoy has an invalid checksum: for revision 0 the 20-byte sum, for later revisions the
+		// extended 36-byte sum (its 20-byte sum may be right - the structure is still invalid); the
+		// combination "20 bytes wrong, 36 bytes right" is left out as unspecified
+		if !it.Valid && ((it.Rev == 0 && it.Bad20 == 0) || (it.Rev != 0 && it.Bad36 == 0)) {
+			return nil, fmt.Errorf("item %d: a decoy needs its deciding checksum broken", i)
 		}
 		b := make([]byte, it.size())
 		copy(b, rsdpSignature[:])
@@ -588,7 +591,7 @@ func c14Build(c *c14Case) (*c14Env, error) {
 		// self-check of the builder: the flags of the model are what the bytes say
 		s20 := c14Sum(w[pos:pos+20]) == 0
 		s36 := it.Rev == 0 || (c14Sum(w[pos:pos+36]) == 0 && it.Len == 36)
-		if it.Valid != (s20 && s36) || (!it.Valid && (s20 || (it.Rev != 0 && c14Sum(w[pos:pos+36]) == 0))) {
+		if it.Valid != (s20 && s36) || (!it.Valid && ((it.Rev == 0 && s20) || (it.Rev != 0 && c14Sum(w[pos:pos+36]) == 0))) {
 			return nil, fmt.Errorf("item %d: model says valid=%v, bytes say sum20ok=%v sum36ok=%v", i, it.Valid, s20, s36)
 		}
 	}
@@ -1223,6 +1226,9 @@ func c14GenItem(t *rapid.T, rev uint8, valid bool) c14Item {
 	}
 	if !valid {
 		it.Bad20 = uint8(rapid.IntRange(1, 255).Draw(t, "bad20"))
+		if rev != 0 && rapid.IntRange(0, 2).Draw(t, "only36bad") == 0 {
+			it.Bad20 = 0 // e.g. a rev-2 descriptor corrupted somewhere in bytes 20..35
+		}
 		if rev != 0 {
 			it.Bad36 = uint8(rapid.IntRange(1, 255).Draw(t, "bad36"))
 			if rapid.Bool().Draw(t, "badlen") {
